@@ -35,7 +35,7 @@ def alphabet(w, tier):
     def add(name, fn):
         A.append((name, fn))
 
-    starts = [0, 2, (1 << 14) - 2, 1 << 14, (1 << 16) - 2, (1 << 23) - 2, 1 << 40, (1 << 58) - 2, 1 << 63, U64 - 4, U64 - 1]
+    starts = [0, 2, 4, (1 << 14) - 2, 1 << 14, (1 << 16) - 2, (1 << 23) - 2, 1 << 40, (1 << 58) - 2, 1 << 63, U64 - 4, U64 - 1]
     lengths = [0, 2, 4, (1 << 14) + 2, 1 << 40, 1 << 63]
     seg_pairs = [(s, l) for s in starts for l in lengths if tier == 'thorough' or (s in (0, 2, (1 << 14) - 2, (1 << 16) - 2, 1 << 40, U64 - 4) or l in (2, 1 << 63))]
     seg_pairs += [(U64 - 4, 4), (U64 - 4, 5), (2, U64 - 2), (1, U64 - 1), (1 << 63, 1 << 63), ((1 << 63) + 2, 1 << 63)]
@@ -164,6 +164,20 @@ def sequences(tier, w, deep=True):
                     yield (l, r, ri, x)
                 if tier == 'thorough':
                     yield (l, x, r)
+    # a segment declared AFTER a run has fixed the storage layout, then the word accessors / another run on it
+    names = [nm for nm, _ in A]
+    late_segs = [i for i, nm in enumerate(names) if nm.startswith('add_segment(') and any(nm.startswith(f'add_segment({s},') for s in
+                 (4, (1 << 14) - 2, 1 << 14, (1 << 16) - 2, 1 << 40, 1 << 63)) and nm.split(',')[1].rstrip(')') in ('2', '4', str((1 << 14) + 2))]
+    accs = [i for i, nm in enumerate(names) if nm.startswith('get_word(') or nm.startswith('set_word(') or nm.startswith('set_words(')]
+    first_loads = [i for i in loads if names[i] in ('load_halt', 'load_out_loop', 'load_far_flip')]
+    first_runs = [i for i in runs if names[i] in ('run(ring=0,ip=0)', 'run(ring=3,ip=0)')]
+    for l in first_loads:
+        for r in first_runs:
+            for sg in late_segs:
+                for a in accs:
+                    yield (l, r, sg, a)
+                for r2 in first_runs:
+                    yield (l, r, sg, r2)
     if tier == 'thorough':
         for l in loads:
             for r in runs[::3]:
